@@ -507,10 +507,21 @@ impl LazySeq {
         drop(state);
 
         if let Some(gen) = genfn {
-            let obj = gen.call0(py)?;
-            let mut state = mutex.borrow_mut();
-            *state = LazySeqState::Computed(obj.clone_ref(py));
-            Ok(obj.clone_ref(py))
+            match gen.call0(py) {
+                Ok(obj) => {
+                    let mut state = mutex.borrow_mut();
+                    *state = LazySeqState::Computed(obj.clone_ref(py));
+                    Ok(obj.clone_ref(py))
+                }
+                Err(e) => {
+                    // Put the generator back so the error is raised again (or the
+                    // computation retried) on the next access. Leaving the state as
+                    // Computing would make every later access see an empty seq.
+                    let mut state = mutex.borrow_mut();
+                    *state = LazySeqState::Initialized(gen);
+                    Err(e)
+                }
+            }
         } else {
             panic!("Expected a reference to a generator function!");
         }
